@@ -243,6 +243,17 @@ pub fn check_class(case: &Case, l: &mut Local) -> Verdict {
                 }
             }
         }
+        // every second case: the PikeVM must agree with the set as well
+        if case.hash() % 2 == 0 {
+            if let Out::Ms(v) = first_with(&re, Engine::Pike, Enc::Utf8, &h, 0, 400_000).0 {
+                if v.is_empty() == want {
+                    if let Some(id) = crate::kf::explain_match(&case.pat, fl, &h, 0, &v.into_iter().next(), 500_000) {
+                        return Verdict::Known(id);
+                    }
+                    return Verdict::Fail(format!("probe \"{}\" (PikeVM): regress says {}, the set denoted by the class says {}", show_str(&h), if want { "not a member" } else { "member" }, if want { "member" } else { "not a member" }));
+                }
+            }
+        }
         if want {
             yes += 1
         } else {
